@@ -27,6 +27,30 @@
 //!   R-content      a response event carries the client's own answer (Ok -> open / fully filled,
 //!                  Err -> the client's error, indexed).
 //!   R-unsolicited  no account event for a (kind, cid) that was never requested.
+//!
+//! Repeated requests ("repeat" plans): batches in which the same (kind, cid) occurs two or more times –
+//! the same cancel / open re-issued after the first one was answered, after it timed out (these plans
+//! keep handing requests over beyond the first deadline) or while it is still outstanding. The
+//! statement speaks about every *accepted request*, so every request INSTANCE needs exactly one answer;
+//! it neither demands nor forbids that the manager forwards a repeated request to the client. Events
+//! of instances of one (kind, cid) can be indistinguishable by key, therefore they are matched per
+//! (kind, cid) group:
+//!   * an event that echoes something only one instance can have produced is attributed to exactly
+//!     that instance: the scripted client's answer carries the instance number (order id `xid-<i>` /
+//!     exchange time in an Ok answer, `#<i>` in the rejection text), an open event echoes the
+//!     request's side/price/quantity (distinct per instance);
+//!   * the remaining events (cancel timeouts carry nothing but the key) are distributed over the
+//!     instances that still lack an answer such that as many instances as possible get an answer of a
+//!     class their expectation allows (strict expectations first, then "either at the deadline") –
+//!     i.e. the check is on the multiset of answer classes of the group; no violation is reported
+//!     when some distribution satisfies every instance.
+//! Violations of R-answer in such a group are reported as `C07/answer/repeated-request/...`.
+//!
+//! Determinism self-check: a fixed subset of the schedules is executed twice. Different (each time
+//! allowed) observations are a machinery failure (exit 2) when the run finds no violation at all;
+//! when it does, the subject itself is schedule-dependent beyond what the harness controls and the
+//! violations stand (decided at the end of `run`, so that the verdict is not cut short).
+//!
 //! The order of events is not part of the property and is ignored (this also makes the verdict
 //! independent of `select!`'s random start branch). When a timeout failure is emitted is not bounded
 //! by the statement beyond "eventually", hence the generous horizon.
@@ -143,29 +167,37 @@ pub struct Params {
 /// foreign exchange index in an answer is observable.
 type Cfg = u8;
 
-fn all_batches(n: usize) -> Vec<Vec<Req>> {
-    // cid labels in first-occurrence order (restricted growth), (kind, cid) pairwise distinct.
-    fn rec(n: usize, cur: &mut Vec<Req>, out: &mut Vec<Vec<Req>>) {
+/// `repeats == false`: cid labels in first-occurrence order (restricted growth), (kind, cid) pairwise
+/// distinct. `repeats == true`: the complement – every such batch in which at least one (kind, cid)
+/// occurs twice or more (a request for an already used client order id is issued again).
+fn batches(n: usize, repeats: bool) -> Vec<Vec<Req>> {
+    fn rec(n: usize, repeats: bool, cur: &mut Vec<Req>, out: &mut Vec<Vec<Req>>) {
         if cur.len() == n {
-            out.push(cur.clone());
+            let has_repeat = (0..n).any(|i| cur[..i].contains(&cur[i]));
+            if has_repeat == repeats {
+                out.push(cur.clone());
+            }
             return;
         }
         let max_label = cur.iter().map(|r| r.cid + 1).max().unwrap_or(0);
         for cid in 0..=max_label {
             for kind in [Kind::Open, Kind::Cancel] {
                 let r = Req { kind, cid };
-                if cur.contains(&r) {
+                if !repeats && cur.contains(&r) {
                     continue;
                 }
                 cur.push(r);
-                rec(n, cur, out);
+                rec(n, repeats, cur, out);
                 cur.pop();
             }
         }
     }
     let mut out = Vec::new();
-    rec(n, &mut Vec::new(), &mut out);
+    rec(n, repeats, &mut Vec::new(), &mut out);
     out
+}
+fn all_batches(n: usize) -> Vec<Vec<Req>> {
+    batches(n, false)
 }
 
 // ------------------------------------------------------------------------------------------------
@@ -183,6 +215,7 @@ struct Call {
     kind: Kind,
     key: OrderKey<ExchangeId, InstrumentNameExchange>,
     open: Option<RequestOpen>,
+    cancel: Option<RequestCancel>,
     tx: Option<PendingTx>,
 }
 
@@ -234,6 +267,7 @@ impl ExecutionClient for ScriptClient {
             kind: Kind::Cancel,
             key: owned_key(&request.key),
             open: None,
+            cancel: Some(request.state.clone()),
             tx: Some(PendingTx::Cancel(tx)),
         });
         async move {
@@ -253,6 +287,7 @@ impl ExecutionClient for ScriptClient {
             kind: Kind::Open,
             key: owned_key(&request.key),
             open: Some(request.state.clone()),
+            cancel: None,
             tx: Some(PendingTx::Open(tx)),
         });
         async move {
@@ -342,14 +377,23 @@ fn open_state(pos: usize) -> RequestOpen {
         },
     }
 }
+fn cancel_state(pos: usize) -> RequestCancel {
+    RequestCancel { id: if pos % 2 == 0 { Some(OrderId::new(format!("oid-{pos}"))) } else { None } }
+}
 fn exec_request(w: &World, r: &Req, pos: usize) -> ExecutionRequest {
     match r.kind {
         Kind::Open => ExecutionRequest::Open(OrderEvent { key: key_of(w, r), state: open_state(pos) }),
-        Kind::Cancel => ExecutionRequest::Cancel(OrderEvent {
-            key: key_of(w, r),
-            state: RequestCancel { id: if pos % 2 == 0 { Some(OrderId::new(format!("oid-{pos}"))) } else { None } },
-        }),
+        Kind::Cancel => ExecutionRequest::Cancel(OrderEvent { key: key_of(w, r), state: cancel_state(pos) }),
     }
+}
+/// Do the requests at positions `i` and `j` of the batch look the same to the client (same kind, cid
+/// and request content)? Only two cancels without an order id (odd positions) can.
+fn same_content(batch: &[Req], i: usize, j: usize) -> bool {
+    batch[i] == batch[j]
+        && match batch[i].kind {
+            Kind::Open => open_state(i) == open_state(j),
+            Kind::Cancel => cancel_state(i) == cancel_state(j),
+        }
 }
 
 // ------------------------------------------------------------------------------------------------
@@ -391,6 +435,9 @@ struct Exec {
     viols: Vec<(String, String)>,
     /// canonical outcome (order-insensitive): per request (expected, observed classes), terminated
     outcome: Vec<(Req, Expect, Vec<Class>)>,
+    /// per repeated request instance: (position, state of the previous instance of the same (kind, cid)
+    /// at the moment this one was handed over)
+    repeats: Vec<(usize, &'static str)>,
     terminated: bool,
     trace: Vec<String>,
 }
@@ -464,11 +511,26 @@ fn execute(cfg: Cfg, batch: &[Req], p: &Params, ch: &mut Chooser) -> Exec {
     let mut now = p.instants[0];
     assert_eq!(now, 0, "time line starts at 0");
 
+    let mut must_act = false; // set after "advance without running the manager": an action must follow
+    let mut not_yet_run = false; // the current action happens before the manager has seen the new instant
+    let mut repeats: Vec<(usize, &'static str)> = Vec::new();
     // the first request is handed over at instant 0 (a later first delivery is a time shift)
     macro_rules! hand {
         ($k:expr) => {{
             for _ in 0..$k {
                 let i = next;
+                if let Some(prev) = (0..i).rev().find(|j| batch[*j] == batch[i]) {
+                    let dl = handed_at[prev].unwrap() + p.timeout_ms;
+                    repeats.push((i, match completed[prev] {
+                        Some((c, _, true)) if c < dl => "previous-answered",
+                        Some((c, _, true)) if c == dl => "previous-answered-at-deadline",
+                        Some((_, _, true)) => "previous-timed-out",
+                        Some((_, _, false)) => "previous-never-forwarded",
+                        None if now < dl => "previous-outstanding",
+                        None if now == dl && not_yet_run => "previous-timeout-due",
+                        None => "previous-timed-out",
+                    }));
+                }
                 let _ = req_tx.as_ref().unwrap().send(exec_request(&w, &batch[i], i));
                 handed_at[i] = Some(now);
                 trace.push(format!("t={now}: hand #{i} {:?}", batch[i]));
@@ -480,7 +542,6 @@ fn execute(cfg: Cfg, batch: &[Req], p: &Params, ch: &mut Chooser) -> Exec {
     run_manager!(now);
 
     let mut stopped_early = false; // run() returned (or panicked) before Shutdown / channel close
-    let mut must_act = false; // set after "advance without running the manager": an action must follow
     loop {
         // enabled actions at this point
         #[derive(Clone, Copy)]
@@ -513,6 +574,7 @@ fn execute(cfg: Cfg, batch: &[Req], p: &Params, ch: &mut Chooser) -> Exec {
         }
         assert!(!acts.is_empty(), "no enabled action");
         let a = acts[ch.choose(acts.len())];
+        not_yet_run = must_act;
         must_act = false;
         match a {
             A::Hand(k) => {
@@ -520,7 +582,7 @@ fn execute(cfg: Cfg, batch: &[Req], p: &Params, ch: &mut Chooser) -> Exec {
                 run_manager!(now);
             }
             A::Complete(i, b) => {
-                let existed = complete(&client, &batch[i], b, i);
+                let existed = complete(&client, batch, b, i);
                 completed[i] = Some((now, b, existed));
                 trace.push(format!("t={now}: client answers #{i} with {b:?}{}", if existed { "" } else { " (client was never called: void)" }));
                 run_manager!(now);
@@ -568,20 +630,90 @@ fn execute(cfg: Cfg, batch: &[Req], p: &Params, ch: &mut Chooser) -> Exec {
     let mut viols: Vec<(String, String)> = Vec::new();
     let mut unanswered: Vec<String> = Vec::new();
     let mut used = vec![false; events.len()];
+    let expect_of = |i: usize| -> Expect {
+        let deadline = handed_at[i].unwrap() + p.timeout_ms;
+        match completed[i] {
+            Some((c, b, true)) if c < deadline => Expect::Response(b),
+            Some((c, b, true)) if c == deadline => Expect::Either(b),
+            _ => Expect::Timeout,
+        }
+    };
+    let admits = |e: &Expect, c: &Class| match e {
+        Expect::Response(_) => *c == Class::Response,
+        Expect::Timeout => *c == Class::Timeout,
+        Expect::Either(_) => true,
+    };
+    // events attributed to each request instance
+    let mut mine: Vec<Vec<usize>> = vec![Vec::new(); n];
+    let mut group_size = vec![1usize; n];
+    for (i, r) in batch.iter().enumerate() {
+        if handed_at[i].is_none() || batch[..i].contains(r) {
+            continue;
+        }
+        // the group: all handed instances of this (kind, cid), and all events that answer (kind, cid)
+        let members: Vec<usize> = (i..n).filter(|j| batch[*j] == *r && handed_at[*j].is_some()).collect();
+        let cid = cid_of(r.cid);
+        let evs: Vec<(usize, Class, Option<usize>)> = events
+            .iter()
+            .enumerate()
+            .filter_map(|(e, (_, ev))| {
+                let (kind, ev_cid, class, answer_tag, echo) = event_tags(ev)?;
+                if kind != r.kind || *ev_cid != cid {
+                    return None;
+                }
+                // instance tag: from the client's own answer, else from the echoed open request
+                let tag = answer_tag
+                    .filter(|t| members.contains(t))
+                    .or_else(|| echo.and_then(|st| members.iter().copied().find(|m| open_state(*m) == st)));
+                Some((e, class, tag))
+            })
+            .collect();
+        for m in &members {
+            group_size[*m] = members.len();
+        }
+        if members.len() == 1 {
+            mine[i] = evs.iter().map(|e| e.0).collect();
+            continue;
+        }
+        // repeated request: tagged events go to their instance ...
+        let mut rest = Vec::new();
+        for (e, class, tag) in &evs {
+            match tag {
+                Some(t) => mine[*t].push(*e),
+                None => rest.push((*e, class.clone())),
+            }
+        }
+        // ... the others to an instance that still lacks an answer and admits the class (strict
+        // expectation first: optimal, since only "either" instances are contended between the classes);
+        // what is left over is surplus: shown on an unanswered instance if any, else as a duplicate
+        for (e, class) in rest {
+            let empty = |m: &&usize| mine[**m].is_empty();
+            let strict = |m: &&usize| !matches!(expect_of(**m), Expect::Either(_));
+            let target = members
+                .iter()
+                .filter(empty)
+                .filter(|m| admits(&expect_of(**m), &class))
+                .find(strict)
+                .or_else(|| members.iter().filter(empty).find(|m| admits(&expect_of(**m), &class)))
+                .or_else(|| members.iter().find(empty))
+                .or_else(|| members.iter().find(|m| admits(&expect_of(**m), &class)))
+                .unwrap_or(&members[0]);
+            mine[*target].push(e);
+        }
+    }
     let mut outcome = Vec::new();
     for (i, r) in batch.iter().enumerate() {
         let Some(h) = handed_at[i] else { continue };
         let deadline = h + p.timeout_ms;
-        let expect = match completed[i] {
-            Some((c, b, true)) if c < deadline => Expect::Response(b),
-            Some((c, b, true)) if c == deadline => Expect::Either(b),
-            _ => Expect::Timeout,
-        };
+        let expect = expect_of(i);
         let key = key_of(&w, r);
+        let repeated = if group_size[i] > 1 { "repeated-request/" } else { "" };
         let mut classes = Vec::new();
-        for (e, (at, ev)) in events.iter().enumerate() {
+        mine[i].sort();
+        for e in &mine[i] {
+            let (at, ev) = &events[*e];
             let Some((class, problems)) = judge_event(&w, r, i, &key, completed[i].map(|c| c.1), ev) else { continue };
-            used[e] = true;
+            used[*e] = true;
             for (field, detail) in problems {
                 let c = if class == Class::Timeout { "timeout" } else { "response" };
                 viols.push((
@@ -614,10 +746,15 @@ fn execute(cfg: Cfg, batch: &[Req], p: &Params, ch: &mut Chooser) -> Exec {
             unanswered.push(format!("#{i} {r:?} (expected {exp_s})"));
         } else if !ok {
             viols.push((
-                format!("C07/answer/{}/expected={exp_s}/got={got}", r.kind.s()),
+                format!("C07/answer/{repeated}{}/expected={exp_s}/got={got}", r.kind.s()),
                 format!(
-                    "request #{i} {r:?} handed at t={h} (deadline t={deadline}), client answer {:?}: expected exactly one {exp_s}, observed {classes:?}{}",
+                    "request #{i} {r:?} handed at t={h} (deadline t={deadline}), client answer {:?}: expected exactly one {exp_s}, observed {classes:?}{}{}",
                     completed[i].map(|c| (c.0, c.1)),
+                    if group_size[i] > 1 {
+                        format!(" [{}one of {} requests for this (kind, cid) in the batch {batch:?}; events without an instance tag were distributed in favour of the manager]", repeats.iter().find(|x| x.0 == i).map(|x| format!("{}; ", x.1)).unwrap_or_default(), group_size[i])
+                    } else {
+                        String::new()
+                    },
                     if terminated { "" } else { " [manager did not terminate normally]" }
                 ),
             ));
@@ -645,14 +782,29 @@ fn execute(cfg: Cfg, batch: &[Req], p: &Params, ch: &mut Chooser) -> Exec {
             ));
         }
     }
-    Exec { viols, outcome, terminated, trace }
+    Exec { viols, outcome, repeats, terminated, trace }
 }
 
-/// Complete the client future of request `r`; false if the manager never called the client for it.
-fn complete(client: &ScriptClient, r: &Req, b: Beh, pos: usize) -> bool {
+/// Complete the client future of the request INSTANCE at position `pos` of the batch; false if the
+/// manager never called the client for it. The client call of an instance is recognised by kind, cid
+/// and request content (side/price/quantity.. of an open, order id of a cancel: distinct per position
+/// except for two id-less cancels of one cid); among calls that look the same the k-th call belongs to
+/// the k-th such instance (requests are handed over, and taken from the request stream, in batch order).
+fn complete(client: &ScriptClient, batch: &[Req], b: Beh, pos: usize) -> bool {
     let mut calls = client.calls.lock().unwrap();
+    let r = &batch[pos];
     let cid = cid_of(r.cid);
-    let Some(call) = calls.iter_mut().find(|c| c.kind == r.kind && c.key.cid == cid && c.tx.is_some()) else {
+    let ordinal = (0..pos).filter(|j| same_content(batch, *j, pos)).count();
+    let (open, cancel) = match r.kind {
+        Kind::Open => (Some(open_state(pos)), None),
+        Kind::Cancel => (None, Some(cancel_state(pos))),
+    };
+    let Some(call) = calls
+        .iter_mut()
+        .filter(|c| c.kind == r.kind && c.key.cid == cid && c.open == open && c.cancel == cancel)
+        .nth(ordinal)
+        .filter(|c| c.tx.is_some())
+    else {
         return false;
     };
     match call.tx.take().unwrap() {
@@ -661,7 +813,7 @@ fn complete(client: &ScriptClient, r: &Req, b: Beh, pos: usize) -> bool {
             let state = match b {
                 Beh::Ok => Ok(open_meta(pos, Decimal::ZERO)),
                 Beh::Filled => Ok(open_meta(pos, st.quantity)),
-                Beh::Err => Err(client_error()),
+                Beh::Err => Err(client_error(pos)),
             };
             // a late answer finds the receiver gone: that is fine
             let _ = tx.send(Order {
@@ -676,7 +828,7 @@ fn complete(client: &ScriptClient, r: &Req, b: Beh, pos: usize) -> bool {
         }
         PendingTx::Cancel(tx) => {
             let state = match b {
-                Beh::Err => Err(client_error()),
+                Beh::Err => Err(client_error(pos)),
                 _ => Ok(cancelled_meta(pos)),
             };
             let _ = tx.send(OrderEvent { key: call.key.clone(), state });
@@ -691,11 +843,48 @@ fn open_meta(pos: usize, filled: Decimal) -> Open {
 fn cancelled_meta(pos: usize) -> Cancelled {
     Cancelled { id: OrderId::new(format!("xid-{pos}")), time_exchange: t_plus(20 + pos as i64) }
 }
-fn client_error() -> UnindexedOrderError {
-    UnindexedOrderError::Rejected(ApiError::OrderRejected("scripted rejection".into()))
+// the scripted client's answers carry the instance number `pos` (order id / exchange time / rejection text)
+fn client_error(pos: usize) -> UnindexedOrderError {
+    UnindexedOrderError::Rejected(ApiError::OrderRejected(format!("scripted rejection #{pos}")))
 }
-fn client_error_indexed() -> OrderError {
-    OrderError::Rejected(ApiError::OrderRejected("scripted rejection".into()))
+fn client_error_indexed(pos: usize) -> OrderError {
+    OrderError::Rejected(ApiError::OrderRejected(format!("scripted rejection #{pos}")))
+}
+fn tag_of_error(e: &OrderError) -> Option<usize> {
+    match e {
+        OrderError::Rejected(ApiError::OrderRejected(text)) => text.strip_prefix("scripted rejection #")?.parse().ok(),
+        _ => None,
+    }
+}
+fn tag_of_id(id: &OrderId) -> Option<usize> {
+    id.0.strip_prefix("xid-")?.parse().ok()
+}
+
+/// Which request kind does `ev` answer, for which cid, with which class, and which instance tags does
+/// it carry: (kind, cid, class, tag echoed from the client's own answer, echoed open-request fields).
+fn event_tags(ev: &AccountStreamEvent) -> Option<(Kind, &ClientOrderId, Class, Option<usize>, Option<RequestOpen>)> {
+    let RcEvent::Item(AccountEvent { kind, .. }) = ev else { return None };
+    match kind {
+        AccountEventKind::OrderSnapshot(Snapshot(o)) => {
+            let (class, tag) = match &o.state {
+                OrderState::Inactive(InactiveOrderState::OpenFailed(OrderError::Connectivity(ConnectivityError::Timeout))) => (Class::Timeout, None),
+                OrderState::Inactive(InactiveOrderState::OpenFailed(e)) => (Class::Response, tag_of_error(e)),
+                OrderState::Active(ActiveOrderState::Open(open)) => (Class::Response, tag_of_id(&open.id)),
+                _ => (Class::Response, None),
+            };
+            let echo = RequestOpen { side: o.side, price: o.price, quantity: o.quantity, kind: o.kind, time_in_force: o.time_in_force };
+            Some((Kind::Open, &o.key.cid, class, tag, Some(echo)))
+        }
+        AccountEventKind::OrderCancelled(c) => {
+            let (class, tag) = match &c.state {
+                Err(OrderError::Connectivity(ConnectivityError::Timeout)) => (Class::Timeout, None),
+                Err(e) => (Class::Response, tag_of_error(e)),
+                Ok(cancelled) => (Class::Response, tag_of_id(&cancelled.id)),
+            };
+            Some((Kind::Cancel, &c.key.cid, class, tag, None))
+        }
+        _ => None,
+    }
 }
 
 /// Does `ev` answer request `r` (same kind of answer, same cid)? If so classify it and list the
@@ -727,7 +916,7 @@ fn judge_event(
                     Some(Beh::Filled) => {
                         o.state == OrderState::fully_filled() || o.state == OrderState::active(open_meta(pos, st.quantity))
                     }
-                    Some(Beh::Err) => o.state == OrderState::inactive(client_error_indexed()),
+                    Some(Beh::Err) => o.state == OrderState::inactive(client_error_indexed(pos)),
                     None => false, // a response although the client never answered
                 };
                 if !ok {
@@ -743,7 +932,7 @@ fn judge_event(
             };
             if class == Class::Response {
                 let ok = match beh {
-                    Some(Beh::Err) => c.state == Err(client_error_indexed()),
+                    Some(Beh::Err) => c.state == Err(client_error_indexed(pos)),
                     Some(_) => c.state == Ok(cancelled_meta(pos)),
                     None => false,
                 };
@@ -783,6 +972,9 @@ struct Tally {
     answered_by_timeout: AtomicU64,
     race_at_deadline: AtomicU64,
     selfchecks: AtomicU64,
+    repeats: Mutex<std::collections::BTreeMap<&'static str, u64>>,
+    /// schedules whose two executions differed although neither broke a rule: (count, smallest case)
+    nondeterministic: Mutex<(u64, Option<(u64, Value)>)>,
     distinct: Distinct,
     samples: Mutex<std::collections::BTreeMap<u64, Value>>,
 }
@@ -798,8 +990,17 @@ fn explore_batch(ctx: &Ctx, cfg: Cfg, batch: &[Req], p: &Params, bound: Option<u
             let sigs = |e: &Exec| e.viols.iter().map(|v| v.0.clone()).collect::<Vec<_>>();
             if ex2.outcome != ex.outcome || sigs(&ex2) != sigs(&ex) || ex2.terminated != ex.terminated {
                 if ex.viols.is_empty() && ex2.viols.is_empty() {
-                    eprintln!("MACHINERY: C07 schedule is not deterministic: {}", case_json(cfg, batch, p, choices.clone()));
-                    std::process::exit(2);
+                    // Same schedule, different (each time allowed) observations. If the whole run finds no
+                    // violation this is a machinery failure (exit 2, decided at the end of `run`); if it does,
+                    // the subject itself is schedule-dependent beyond what the harness controls (e.g. a shared
+                    // deadline makes select!'s branch order observable) and the violations are the verdict.
+                    let mut g = t.nondeterministic.lock().unwrap();
+                    g.0 += 1;
+                    let case = case_json(cfg, batch, p, choices.clone());
+                    let h = hash_of(&case.to_string());
+                    if g.1.as_ref().map(|(h0, _)| h < *h0).unwrap_or(true) {
+                        g.1 = Some((h, case));
+                    }
                 }
                 // the subject itself behaves differently on the same schedule (select!'s random start branch)
                 // and at least one behaviour breaks the property: that is a verdict, report both runs
@@ -824,6 +1025,12 @@ fn explore_batch(ctx: &Ctx, cfg: Cfg, batch: &[Req], p: &Params, bound: Option<u
                     Class::Response => t.answered_by_response.fetch_add(1, Ordering::Relaxed),
                     Class::Timeout => t.answered_by_timeout.fetch_add(1, Ordering::Relaxed),
                 };
+            }
+        }
+        if !ex.repeats.is_empty() {
+            let mut g = t.repeats.lock().unwrap();
+            for (_, rel) in &ex.repeats {
+                *g.entry(rel).or_insert(0) += 1;
             }
         }
         t.distinct.add(&(cfg, batch.to_vec(), ex.outcome.clone()));
@@ -866,20 +1073,40 @@ pub fn run(ctx: &Ctx) -> Outcome {
         burst: false,
         filled,
     };
-    let mut plans: Vec<(&str, usize, Vec<Cfg>, Params, Option<usize>)> = vec![
-        ("n=1", 1, vec![0, 1], uniform(true, true), None),
-        ("n=2", 2, vec![0, 1], uniform(true, true), None),
+    // repeat plans: T = 1 tick and hand-overs up to 2 ticks, so that a request can be re-issued after the
+    // earlier instance was answered, while it is outstanding, exactly at its deadline (before or after
+    // the manager has run) and after it has timed out
+    let late = |filled: bool, burst: bool, deliver_until: u64| Params {
+        timeout_ms: 100,
+        instants: vec![0, 100, 200, 300],
+        deliver_until,
+        burst,
+        filled,
+    };
+    // (label, n, repeated (kind, cid) batches?, cfgs, params, deviation bound)
+    let mut plans: Vec<(&str, usize, bool, Vec<Cfg>, Params, Option<usize>)> = vec![
+        ("n=1", 1, false, vec![0, 1], uniform(true, true), None),
+        ("n=2", 2, false, vec![0, 1], uniform(true, true), None),
+        ("n=2/repeat", 2, true, vec![0, 1], uniform(true, true), None),
+        ("n=2/repeat/late", 2, true, vec![0, 1], late(true, true, 200), None),
     ];
     if quick {
-        plans.push(("n=3", 3, vec![0, 1], uniform(false, false), None));
+        plans.push(("n=3", 3, false, vec![0, 1], uniform(false, false), None));
+        plans.push(("n=3/repeat", 3, true, vec![1], uniform(false, false), None));
+        plans.push(("n=3/repeat/late", 3, true, vec![0], late(false, false, 200), None));
     } else {
-        plans.push(("n=3", 3, vec![0, 1], uniform(false, true), None));
-        plans.push(("n=2/eps", 2, vec![0], eps(true), None));
-        plans.push(("n=3/eps", 3, vec![0], eps(false), Some(4)));
-        plans.push(("n=4", 4, vec![0], uniform(false, false), Some(4)));
+        plans.push(("n=3", 3, false, vec![0, 1], uniform(false, true), None));
+        plans.push(("n=2/eps", 2, false, vec![0], eps(true), None));
+        plans.push(("n=3/eps", 3, false, vec![0], eps(false), Some(4)));
+        plans.push(("n=4", 4, false, vec![0], uniform(false, false), Some(4)));
         // three hand-over instants, T = 3 ticks: requests whose deadlines are all different
         let t3 = Params { timeout_ms: 300, instants: vec![0, 100, 200, 300, 400, 500, 600], deliver_until: 200, burst: false, filled: false };
-        plans.push(("n=3/T=3ticks", 3, vec![1], t3, None));
+        plans.push(("n=3/T=3ticks", 3, false, vec![1], t3, None));
+        plans.push(("n=3/repeat", 3, true, vec![0, 1], uniform(false, true), None));
+        plans.push(("n=3/repeat/late", 3, true, vec![0, 1], late(false, true, 200), None));
+        plans.push(("n=2/repeat/eps", 2, true, vec![1], eps(true), None));
+        plans.push(("n=4/repeat", 4, true, vec![1], uniform(false, false), Some(4)));
+        plans.push(("n=4/repeat/late", 4, true, vec![0], late(false, false, 200), Some(4)));
     }
 
     let t = Tally {
@@ -890,13 +1117,15 @@ pub fn run(ctx: &Ctx) -> Outcome {
         answered_by_timeout: AtomicU64::new(0),
         race_at_deadline: AtomicU64::new(0),
         selfchecks: AtomicU64::new(0),
+        repeats: Mutex::new(Default::default()),
+        nondeterministic: Mutex::new((0, None)),
         distinct: Distinct::default(),
         samples: Mutex::new(Default::default()),
     };
     let mut per_plan = Vec::new();
     let mut all_exhaustive = true;
-    for (label, n, cfgs, p, bound) in &plans {
-        let batches = all_batches(*n);
+    for (label, n, repeats, cfgs, p, bound) in &plans {
+        let batches = if *repeats { batches(*n, true) } else { all_batches(*n) };
         let jobs: Vec<(Cfg, Vec<Req>)> =
             cfgs.iter().flat_map(|c| batches.iter().map(move |b| (*c, b.clone()))).collect();
         let before = t.executions.load(Ordering::Relaxed);
@@ -908,12 +1137,20 @@ pub fn run(ctx: &Ctx) -> Outcome {
         let execs = t.executions.load(Ordering::Relaxed) - before;
         all_exhaustive &= bound.is_none();
         per_plan.push(json!({
-            "plan": label, "requests": n, "configs": cfgs, "batches": batches.len(), "params": p,
+            "plan": label, "requests": n, "repeated_kind_cid": repeats, "configs": cfgs, "batches": batches.len(), "params": p,
             "deviation_bound": bound, "all_schedules": bound.is_none(), "executions": execs, "max_choice_points": max_points,
         }));
         eprintln!("C07 {label}: batches={} cfgs={} executions={execs} elapsed={:.1}s", batches.len(), cfgs.len(), ctx.start.elapsed().as_secs_f64());
     }
     let executions = t.executions.load(Ordering::Relaxed);
+    let nondet = t.nondeterministic.lock().unwrap().clone();
+    if let (n, Some((_, case))) = &nondet {
+        if ctx.violations.len() == 0 {
+            eprintln!("MACHINERY: C07: {n} schedule(s) are not deterministic although no rule is broken, e.g. {case}");
+            std::process::exit(2);
+        }
+        eprintln!("C07: note: {n} self-checked schedule(s) gave different (each time allowed) observations on re-execution, e.g. {case}");
+    }
     Outcome {
         level: "exploration",
         coverage: json!({
@@ -925,13 +1162,15 @@ pub fn run(ctx: &Ctx) -> Outcome {
             "answers_by_timeout": t.answered_by_timeout.load(Ordering::Relaxed),
             "requests_racing_at_deadline": t.race_at_deadline.load(Ordering::Relaxed),
             "determinism_selfchecks": t.selfchecks.load(Ordering::Relaxed),
+            "selfchecks_subject_schedule_dependent": nondet.0,
+            "repeated_requests_by_state_of_previous_instance": *t.repeats.lock().unwrap(),
             "exhaustive": all_exhaustive,
             "plans": per_plan,
-            "rule": "every environment schedule (hand-over instants, per-request client answer Ok/Err/filled before/at/after the deadline or never, all answer orders, manager run before/after an answer at the deadline instant, Shutdown/close) of every batch of n open/cancel requests with colliding cids, executed on the real ExecutionManager::run under virtual time; per request exactly one answer of the class the statement prescribes, correctly attributed",
+            "rule": "every environment schedule (hand-over instants, per-request client answer Ok/Err/filled before/at/after the deadline or never, all answer orders, manager run before/after an answer at the deadline instant, Shutdown/close) of every batch of n open/cancel requests with colliding cids (incl. the same (kind, cid) requested repeatedly), executed on the real ExecutionManager::run under virtual time; per request exactly one answer of the class the statement prescribes, correctly attributed",
             "samples": t.samples.lock().unwrap().values().cloned().collect::<Vec<_>>(),
         }),
         assumptions: vec![
-            "client order ids are unique per (request kind) within a batch; an open and a cancel may share a cid".into(),
+            "an open and a cancel may share a cid; in the 'repeat' plans the same (kind, cid) is requested two or more times (after the earlier one was answered / timed out / while outstanding): every instance needs its own single answer, events without an instance tag (cancel timeouts) are matched per (kind, cid) as a multiset of answer classes; forwarding or not de-duplicating repeated requests is neither demanded nor forbidden".into(),
             "requests name instruments configured for the manager's exchange (the code panics otherwise by design)".into(),
             "the client echoes the order key it was called with; its error answer is an API rejection (distinguishable from a timeout failure)".into(),
             "the manager task is run whenever the clock reaches a new instant before anything later happens (no scheduler starvation); only at the deadline instant itself the order is an environment choice".into(),
